@@ -770,7 +770,7 @@ def run(ctx):
     states, trans, runs = design(ctx, thorough)
     cov = {"mech": {}, "max_call_us": {}, "tv_states": 0, "tv_transitions": 0, "accepted": 0, "by_config": {},
            "samples": []}
-    n = 700 if thorough else 120
+    n = 500 if thorough else 120
     for p in profiles(thorough):
         scripts = gen_scripts(ctx, p, n, "g_" + p["name"])
         if len(scripts) < n // 3:
